@@ -238,6 +238,22 @@ pub fn compile(req: &Value) -> Value {
         };
         res.insert(w, v);
     }
+    // outputs and published state layout of a run, when asked for
+    if req["n"].as_u64().is_some() {
+        let r = crate::run::run(req);
+        for be in ["vm", "wasm"] {
+            if let Some(b) = r.get(be) {
+                let out = serde_json::to_string(&b["out"]).unwrap_or_default();
+                let skel = serde_json::to_string(&b["skel"]).unwrap_or_default();
+                let diag = serde_json::to_string(&b["diags"]).unwrap_or_default();
+                res.insert(
+                    format!("run_{be}"),
+                    json!({"status": b["status"], "out": digest(out.as_bytes()), "skel": digest(skel.as_bytes()),
+                           "diag": digest(diag.as_bytes()), "msg": b["msg"]}),
+                );
+            }
+        }
+    }
     Value::Object(res)
 }
 pub fn threads(req: &Value) -> Value { json!({"id": req["id"], "todo": true}) }
